@@ -24,6 +24,9 @@ pub enum Op {
     Mods,
     /// add_byte and, when it yields an event, pass it on to process_keyevent (end-to-end typing)
     Type(u8),
+    /// as Type, but over the bit-serial path after a line glitch: three stray bits (1,0,1), clear() (the documented
+    /// timeout recovery), then the 11 bits of the valid frame of this byte through add_bit
+    TypeBits(u8),
 }
 
 impl Op {
@@ -39,6 +42,7 @@ impl Op {
             Op::Map(k, m, hc) => format!("map:{}:{}:{}", key_name(*k), m, mode_name(*hc)),
             Op::Mods => "mods".into(),
             Op::Type(b) => format!("type:{:02X}", b),
+            Op::TypeBits(b) => format!("typebits:{:02X}", b),
         }
     }
     pub fn parse(s: &str) -> Option<Op> {
@@ -54,6 +58,7 @@ impl Op {
             "map" => Op::Map(key_by_name(p.get(1)?)?, p.get(2)?.parse().ok()?, mode_by_name(p.get(3)?)?),
             "mods" => Op::Mods,
             "type" => Op::Type(u8::from_str_radix(p.get(1)?, 16).ok()?),
+            "typebits" => Op::TypeBits(u8::from_str_radix(p.get(1)?, 16).ok()?),
             _ => return None,
         })
     }
@@ -205,7 +210,7 @@ fn run_ed<L: HLayout>(id: u8, mode: HandleControl, ops: &[Op]) -> Vec<String> {
                 "()".into()
             }),
             Op::Layout(i) => guard(|| {
-                d.change_layout(L::make(*i));
+                let _ = d.change_layout(L::make(*i));
                 "()".into()
             }),
             o => format!("(op {} not applicable)", o.text()),
@@ -239,9 +244,36 @@ fn run_kb<L: HLayout, S: ScancodeSet>(set: S, id: u8, mode: HandleControl, ops: 
                 }
                 other => fmt_ev(&other),
             }),
+            Op::TypeBits(b) => guard(|| {
+                let r = type_bits(&mut k, *b);
+                match r {
+                    Ok(Some(ev)) => {
+                        let t = format!("{:?} {:?}", ev.code, ev.state);
+                        format!("{} -> {}", t, fmt_dk(&k.process_keyevent(ev)))
+                    }
+                    other => fmt_ev(&other),
+                }
+            }),
             o => format!("(op {} not applicable)", o.text()),
         })
         .collect()
+}
+
+/// glitch (1,0,1) + clear(), then the valid frame of `b` bit by bit; the result of the 11th bit
+pub fn type_bits<L: KeyboardLayout, S: ScancodeSet>(k: &mut Keyboard<L, S>, b: u8) -> Result<Option<KeyEvent>, Error> {
+    for x in [true, false, true] {
+        let _ = k.add_bit(x);
+    }
+    k.clear();
+    let w = crate::props::frame::encode(b);
+    let mut last = Ok(None);
+    for i in 0..11 {
+        last = k.add_bit(w & (1 << i) != 0);
+        if i < 10 && !matches!(last, Ok(None)) {
+            return last;
+        }
+    }
+    last
 }
 
 fn run_layout(form: usize, id: usize, ops: &[Op]) -> Vec<String> {
